@@ -22,8 +22,32 @@ import (
 	"math/big"
 
 	"github.com/tuneinsight/lattigo/v6/core/rlwe"
+	"github.com/tuneinsight/lattigo/v6/ring"
 	"github.com/tuneinsight/lattigo/v6/utils/buffer"
+	"github.com/tuneinsight/lattigo/v6/utils/sampling"
 )
+
+// NOISE control: the non-NTT path emits c0 without any error
+type emitter struct {
+	xe ring.Sampler
+	r  *ring.Ring
+}
+
+func newEmitter(prng sampling.PRNG, r *ring.Ring, p rlwe.Parameters) *emitter {
+	xe, _ := ring.NewSampler(prng, r, p.Xe(), false)
+	return &emitter{xe: xe, r: r}
+}
+
+func (e *emitter) emit(sk, a ring.Poly, out *rlwe.Ciphertext, ntt bool) {
+	c0 := out.Value[0]
+	e.r.MulCoeffsMontgomery(a, sk, c0)
+	if ntt {
+		e.xe.Read(out.Value[1])
+		e.r.Add(c0, out.Value[1], c0)
+	} else {
+		e.r.INTT(c0, c0)
+	}
+}
 
 // SECTAB control: 120 bits of modulus at LogN=12 (table row: 109)
 var BadParamsN12QP109 = rlwe.ParametersLiteral{LogN: 12, LogQ: []int{60, 60}}
